@@ -397,10 +397,10 @@ def _alarm(_signo, _frame):
     raise _CaseTimeout
 
 
-def evaluate(case: dict[str, Any]) -> Outcome:
-    """Runs in the shard process itself (a shard is a fresh interpreter; ``Session.close`` undoes the process-global effects).
-    Fork-per-case was measured at 3-12 CPU s per case on the build machine (copy-on-write faults), against 0.3 s in-process;
-    the operators have no unbounded loops and test executions are bounded by the executor, so a SIGALRM watchdog suffices."""
+def evaluate_in_process(case: dict[str, Any]) -> Outcome:
+    """Runs inside the worker process, several cases one after the other (``Session.close`` undoes the process-global effects).
+    Fork-per-case was measured at 3-12 CPU s per case on the build machine (copy-on-write faults), against 0.3 s this way;
+    the operators have no unbounded loops and test executions are bounded by the executor; SIGALRM is the inner watchdog."""
     import signal
 
     import vf.gen.modules as gm
@@ -460,4 +460,25 @@ def evaluate(case: dict[str, Any]) -> Outcome:
         out.sample = {"sut": sut if sut["kind"] == "corpus" else {"kind": "gen", "module": gm.module_names(sut["model"])[0]},
                       "cfg": case["cfg"], "ops": [o[0] for o in case["ops"]], "checked_states": stats["checked"],
                       "max_size": stats["max_size"]}
+    return out
+
+
+def evaluate(case: dict[str, Any]) -> Outcome:
+    """Evaluates the case in the shard's persistent forked worker (vf/c15c24c35_worker.py): a crash of the interpreter while
+    instrumented code runs, or a hang, ends the worker, not the shard, and is reported as inconclusive (not this property)."""
+    from vf.c15c24c35_worker import run_in_worker
+
+    kind, value = run_in_worker(__name__, "evaluate_in_process", case, timeout=700)
+    if kind == "ok":
+        return value
+    out = Outcome()
+    if kind == "exc":
+        out.fail(f"unexpected-exception|{value['sig']}", value["detail"])
+    elif kind == "signal":
+        out.labels.append("class:interpreter-crash")
+        out.inconclusive = f"interpreter died with signal {value} while the case ran (instrumented code; C01-C03, not this property)"
+    elif kind == "timeout":
+        out.inconclusive = "case exceeded 700 s in the worker"
+    else:
+        out.inconclusive = f"worker exited with code {value}"
     return out
